@@ -386,7 +386,169 @@ where
     }
 }
 
+mod buffered {
+    //! derive types whose Deserialize buffers the input through `deserialize_any`
+    use serde::{Deserialize, Serialize};
+    #[derive(Serialize, Deserialize, PartialEq, Debug, Clone)]
+    #[serde(untagged)]
+    pub enum Untagged {
+        Num(f64),
+        Flag(bool),
+        Label(String),
+        Many(Vec<f64>),
+    }
+    #[derive(Serialize, Deserialize, PartialEq, Debug, Clone)]
+    #[serde(tag = "kind")]
+    pub enum Tagged {
+        Point { x: f64, y: Option<f64> },
+        Count { n: u64, neg: i64 },
+        Named { name: String },
+    }
+    #[derive(Serialize, Deserialize, PartialEq, Debug, Clone)]
+    pub struct Inner {
+        pub ratio: f64,
+        pub big: u64,
+    }
+    #[derive(Serialize, Deserialize, PartialEq, Debug, Clone)]
+    pub struct Flat {
+        pub id: i32,
+        #[serde(flatten)]
+        pub inner: Inner,
+        pub tail: Vec<f64>,
+    }
+    #[derive(Serialize, Deserialize, PartialEq, Debug, Clone)]
+    #[serde(tag = "t", content = "c")]
+    pub enum Adjacent {
+        D(f64),
+        L(Vec<Option<f64>>),
+    }
+}
+
+/// value -> Any -> value for types that read themselves through `deserialize_any` (serde's
+/// untagged / internally tagged / adjacently tagged enums, flattened structs): what `Any`
+/// hands to a visitor must be the value's own kind (a double stays a double, NaN included)
+fn buffered_case<T>(name: &'static str, v: &T, r: &mut Report)
+where
+    T: serde::Serialize + serde::de::DeserializeOwned + PartialEq + std::fmt::Debug,
+{
+    r.states += 1;
+    r.evaluations += 1;
+    r.transitions += 1;
+    let shown = format!("{:?}", v);
+    let case = json!({"space": "K", "buffered": name, "value": shown});
+    let same = |a: &T, b: &T| a == b || format!("{:?}", a) == format!("{:?}", b);
+    match vcommon::catch(|| Any::new(v).map_err(|e| e.to_string()).and_then(|a| a.deserialize_into::<T>().map_err(|e| e.to_string()))) {
+        Err(p) => r.violation(format!("C13|K|panic|buffered:{}", name), format!("{} {}: Any::new / deserialize_into panicked: {}", name, shown, p), case),
+        Ok(Err(e)) => r.violation(format!("C13|K|value-rejected|buffered:{}", name), format!("{} {} does not survive Any: {}", name, shown, e), case),
+        Ok(Ok(back)) if same(&back, v) => r.outcome("K:buffered-value-survives-any"),
+        Ok(Ok(back)) => r.violation(format!("C13|K|value-changed|buffered:{}", name), format!("{} {} came back from Any as {:?}", name, shown, back), case),
+    }
+}
+
+fn static_buffered(r: &mut Report) {
+    use buffered::*;
+    let doubles = [0.0, -0.0, 1.5, -1e300, 5e-324, f64::NAN, f64::INFINITY, f64::NEG_INFINITY];
+    for d in doubles {
+        buffered_case("untagged", &Untagged::Num(d), r);
+        buffered_case("untagged", &Untagged::Many(vec![d, 1.0, d]), r);
+        buffered_case("internally-tagged", &Tagged::Point { x: d, y: Some(d) }, r);
+        buffered_case("internally-tagged", &Tagged::Point { x: 1.0, y: None }, r);
+        buffered_case("flatten", &Flat { id: -1, inner: Inner { ratio: d, big: u64::MAX }, tail: vec![d] }, r);
+        buffered_case("adjacently-tagged", &Adjacent::D(d), r);
+        buffered_case("adjacently-tagged", &Adjacent::L(vec![Some(d), None]), r);
+    }
+    for (n, neg) in [(0u64, 0i64), (u64::MAX, i64::MIN), (1 << 53, -1), (i64::MAX as u64 + 1, i64::MAX)] {
+        buffered_case("internally-tagged", &Tagged::Count { n, neg }, r);
+        buffered_case("flatten", &Flat { id: i32::MIN, inner: Inner { ratio: 0.5, big: n }, tail: vec![] }, r);
+    }
+    for s in ["", "NaN", "Infinity", "1.5", "true", "null", "aGk="] {
+        buffered_case("untagged", &Untagged::Label(s.to_string()), r);
+        buffered_case("internally-tagged", &Tagged::Named { name: s.to_string() }, r);
+    }
+    buffered_case("untagged", &Untagged::Flag(true), r);
+}
+
+/// value -> Smile -> Any -> value: the dynamic value filled by a binary deserializer (native
+/// small integers, 32-bit floats, raw binary) still hands back the value
+fn smile_case<T>(name: &'static str, v: &T, r: &mut Report)
+where
+    T: serde::Serialize + serde::de::DeserializeOwned + PartialEq + std::fmt::Debug,
+{
+    r.states += 1;
+    r.evaluations += 2;
+    r.transitions += 2;
+    let shown: String = format!("{:?}", v).chars().take(200).collect();
+    let case = json!({"space": "K", "smile": name, "value": shown});
+    let same = |a: &T, b: &T| a == b || format!("{:?}", a) == format!("{:?}", b);
+    for (enc, bytes) in [("plain-smile", serde_smile::to_vec(v).ok()), ("conjure-smile", conjure_serde::smile::to_vec(v).ok())] {
+        let bytes = match bytes {
+            Some(b) => b,
+            None => continue,
+        };
+        let got = vcommon::catch(|| conjure_serde::smile::client_from_slice::<Any>(&bytes).map_err(|e| e.to_string()).and_then(|a| a.deserialize_into::<T>().map_err(|e| e.to_string())));
+        match got {
+            Err(p) => r.violation(format!("C13|K|panic|smile:{}", name), format!("{} {} via {}: panicked: {}", name, shown, enc, p), case.clone()),
+            Ok(Err(e)) => r.violation(format!("C13|K|value-rejected|smile:{}", name), format!("{} {} does not survive {} -> Any: {}", name, shown, enc, e), case.clone()),
+            Ok(Ok(back)) if same(&back, v) => r.outcome("K:smile-value-survives-any"),
+            Ok(Ok(back)) => r.violation(format!("C13|K|value-changed|smile:{}", name), format!("{} {} came back from {} -> Any as {:?}", name, shown, enc, back), case.clone()),
+        }
+    }
+}
+
+fn static_smile(r: &mut Report) {
+    use conjure_object::Bytes;
+    for v in [i8::MIN, -1, 0, 15, i8::MAX] {
+        smile_case("i8", &v, r);
+    }
+    for v in [i16::MIN, -17, 0, 16, i16::MAX] {
+        smile_case("i16", &v, r);
+    }
+    for v in [i32::MIN, -1, 0, 31, 32, i32::MAX] {
+        smile_case("i32", &v, r);
+    }
+    for v in [i64::MIN, i32::MIN as i64 - 1, -1, 0, i32::MAX as i64 + 1, i64::MAX] {
+        smile_case("i64", &v, r);
+    }
+    for v in [0u8, 127, 128, 255] {
+        smile_case("u8", &v, r);
+    }
+    for v in [0u32, i32::MAX as u32, i32::MAX as u32 + 1, u32::MAX] {
+        smile_case("u32", &v, r);
+    }
+    for v in [0u64, i64::MAX as u64, i64::MAX as u64 + 1, u64::MAX] {
+        smile_case("u64", &v, r);
+    }
+    for v in [0.5f32, -0.0, f32::MAX, f32::MIN_POSITIVE, f32::NAN, f32::INFINITY, f32::NEG_INFINITY] {
+        smile_case("f32", &v, r);
+    }
+    for v in [0.1f64, -0.0, 5e-324, 1e300, f64::NAN, f64::INFINITY, f64::NEG_INFINITY] {
+        smile_case("f64", &v, r);
+        smile_case("list<f64>", &vec![v, 1.0], r);
+        smile_case("optional<f64>", &Some(v), r);
+    }
+    for n in [0usize, 1, 2, 3, 7, 8, 255, 256, 1025] {
+        let b = Bytes::from((0..n).map(|i| (i * 7 + 3) as u8).collect::<Vec<u8>>());
+        smile_case("binary", &b, r);
+        smile_case("list<binary>", &vec![b.clone(), Bytes::new()], r);
+        smile_case("map<string,binary>", &[("k".to_string(), b.clone())].into_iter().collect::<std::collections::BTreeMap<_, _>>(), r);
+    }
+    for v in ['a', '\u{e9}', '\u{10000}'] {
+        smile_case("char", &v, r);
+    }
+    for v in ["", "a", "\u{e9}\u{10000}", "a long string of more than sixty-four characters ........................................"] {
+        smile_case("string", &v.to_string(), r);
+    }
+    smile_case("bool", &true, r);
+    smile_case("unit", &(), r);
+    smile_case("optional<i32>:none", &None::<i32>, r);
+    smile_case("tuple", &(1i32, "x".to_string(), 2.5f64), r);
+    smile_case("uuid", &conjure_object::Uuid::from_u128(0x0123_4567_89ab_cdef_fedc_ba98_7654_3210), r);
+    smile_case("list<uuid>", &vec![conjure_object::Uuid::from_u128(7)], r);
+}
+
 fn static_keys(r: &mut Report) {
+    static_buffered(r);
+    static_smile(r);
     use conjure_object::DoubleKey;
     use keys::*;
     key_case("newtype(u32)", vec![KU32(0), KU32(1), KU32(u32::MAX)], r);
